@@ -3,6 +3,7 @@
 //! (the generator never emits surrogates or values above 0x10FFFF).
 use crate::util::*;
 use aws_smt_strings::smt_strings::*;
+use std::convert::TryInto;
 
 fn show(w: &[u32]) -> String {
     let mut s = format!("{}", w.len());
@@ -89,6 +90,66 @@ pub fn run(t: &[&str]) -> String {
         "from_vec" => {
             let w = c.word();
             flag(&SmtString::from(w))
+        }
+        "from_array" => {
+            // impl<const N: usize> From<&[u32; N]>
+            let w = c.word();
+            let s = match w.len() {
+                0 => {
+                    let a: [u32; 0] = [];
+                    SmtString::from(&a)
+                }
+                1 => {
+                    let a: [u32; 1] = w.clone().try_into().unwrap();
+                    SmtString::from(&a)
+                }
+                2 => {
+                    let a: [u32; 2] = w.clone().try_into().unwrap();
+                    SmtString::from(&a)
+                }
+                3 => {
+                    let a: [u32; 3] = w.clone().try_into().unwrap();
+                    SmtString::from(&a)
+                }
+                4 => {
+                    let a: [u32; 4] = w.clone().try_into().unwrap();
+                    SmtString::from(&a)
+                }
+                7 => {
+                    let a: [u32; 7] = w.clone().try_into().unwrap();
+                    SmtString::from(&a)
+                }
+                _ => panic!("array size"),
+            };
+            flag(&s)
+        }
+        "accessors" => {
+            // len, is_empty, is_good, is_unicode, char(i) for every i, iter, to_unicode_string
+            let w = c.word();
+            let s = SmtString::from(w.as_slice());
+            let chars: Vec<u32> = (0..s.len()).map(|i| s.char(i)).collect();
+            let it: Vec<u32> = s.iter().copied().collect();
+            format!(
+                "len={} empty={} good={} uni={} chars={} iter={} ustr={}",
+                s.len(),
+                b(s.is_empty()),
+                b(s.is_good()),
+                b(s.is_unicode()),
+                show(&chars),
+                show(&it),
+                show(&codes(&s.to_unicode_string()))
+            )
+        }
+        "charat" => {
+            let w = c.word();
+            let i = c.us();
+            let s = SmtString::from(w.as_slice());
+            s.char(i).to_string()
+        }
+        "good_char" => b(good_char(c.u())).to_string(),
+        "good_string" => {
+            let w = c.word();
+            b(good_string(&w)).to_string()
         }
         "undouble" => {
             // harness self-test of the helper used by roundtrip
